@@ -358,6 +358,50 @@ def reused_writers(ctx, rng):
                 ctx.fail(f'reused cropper failed: {type(e).__name__}: {str(e)[:120]}', desc)
 
 
+def irregular_crops(ctx, rng):
+    """crops of irregular surveys (inline numbers stored under INLINE_3D, or under an earlier header word with INLINE_3D
+    recorded as its duplicate): the header of the cropped file states the number of traces that are in the box, and the
+    stored arrays of the box, as the specification reads them"""
+    for k in range(ctx.n(6, 60)):
+        n = (int(rng.integers(5, 14)), int(rng.integers(5, 14)), int(rng.integers(3, 9)))
+        fi = synth.make(ctx.path('irc_src.sgz'), n, (4, 4, 256), 32, rng, irregular=True, n_arrays=int(rng.integers(2, 5)),
+                        il_dup=bool(k % 2), holes=float(rng.choice([.1, .3])))
+        mk = np.asarray(fi.mask).reshape(n[0], n[1])
+        i0 = 4 * int(rng.integers(0, (n[0] + 3) // 4)); i1 = min(n[0], i0 + 4 * int(rng.integers(1, 3)))
+        x0 = 4 * int(rng.integers(0, (n[1] + 3) // 4)); x1 = min(n[1], x0 + 4 * int(rng.integers(1, 3)))
+        if i1 - i0 < 2 or x1 - x0 < 2:
+            i0, i1, x0, x1 = 0, min(n[0], 8), 0, min(n[1], 8)
+        live = int(np.count_nonzero(mk[i0:i1, x0:x1]))
+        desc = {'n': n, 'inline_numbers_stored_as_duplicate_of_field_9': bool(k % 2), 'box': ((i0, i1), (x0, x1)),
+                'live_traces_in_box': live, 'grid_positions_in_box': (i1 - i0) * (x1 - x0)}
+        ctx.case(('irregular-crop', n, bool(k % 2), (i0, i1, x0, x1)), sample=desc)
+        ctx.stats['irregular_crops'] += 1
+        out = ctx.path('irc.sgz')
+        with symcodec.symbolic_decoder():
+            try:
+                with SgzCropper(fi.path) as cr:
+                    env.quiet(cr.write_cropped_file_by_indexes, out, (i0, i1), (x0, x1), None)
+            except Exception as e:  # noqa
+                if live == 0:
+                    continue
+                ctx.fail(f'crop of an irregular survey failed: {type(e).__name__}: {str(e)[:120]}', desc)
+                continue
+        h = spec.read_header(out)[0]
+        if h.tracecount_field != live:
+            ctx.fail(f'cropped irregular file states {h.tracecount_field} traces, the box holds {live}', desc)
+        for p_ in spec.conformance_problems(out):
+            ctx.fail(f'cropped irregular file not conformant: {p_}', desc)
+        want = spec.read_footer_arrays(fi.path)
+        got = spec.read_footer_arrays(out)
+        for code, a in want.items():
+            w = np.asarray(a).reshape(n[0], n[1])[i0:i1, x0:x1].reshape(-1)
+            if code not in got or not np.array_equal(np.asarray(got[code]).reshape(-1), w):
+                ctx.fail(f'cropped irregular file: stored array {code} is not the source array restricted to the box', desc)
+                break
+        if MODEL.get('m') is not None:
+            derivedcorr.check_crop(ctx, MODEL['m'], fi.path, out, (i0, i1, x0, x1, 0, n[2]), live == (i1 - i0) * (x1 - x0) and False, live, desc)
+
+
 def run(ctx):
     model = core.Model()
     rng = gen.rng_for(ctx.seed, 'c03')
@@ -367,6 +411,7 @@ def run(ctx):
         writers_part(ctx, rng)
         gate_files(ctx, rng)
         reused_writers(ctx, gen.rng_for(ctx.seed, 'c03-reused'))
+        irregular_crops(ctx, gen.rng_for(ctx.seed, 'c03-irregular-crops'))
     finally:
         model.close()
 
